@@ -378,6 +378,24 @@ pub fn run(ctx: &RunCtx) -> Outcome {
             return o;
         }
     }
+    // repeat bounds of three and four digits (printed back for the automata engine digit by digit)
+    {
+        let bx = |n: Node| Box::new(n);
+        let mut v = vec![];
+        for (lo, hi) in [(256u32, Some(256u32)), (2, Some(300)), (255, Some(257)), (1000, Some(1000)), (100, Some(100)), (260, None), (99, Some(1001))] {
+            for atom in [Lit('a'), Class(false, vec![('a', 'b')])] {
+                let r = Repeat(bx(atom.clone()), lo, hi, Q::Greedy);
+                v.push(r.clone());
+                v.push(super::api::flatten(Concat(vec![Assert(A::StartText), r.clone(), Assert(A::WordB)])));
+                v.push(super::api::flatten(Concat(vec![Assert(A::WordB), r.clone(), Lit('b')])));
+            }
+        }
+        let bt: Vec<String> = [250usize, 255, 256, 257, 260, 300, 304, 999, 1000, 1002].iter().flat_map(|n| vec!["a".repeat(*n), format!("{}b", "a".repeat(*n)), format!("b {}", "a".repeat(*n))]).collect();
+        let lp = VsRegex { named: None };
+        if !stage(ctx, &mut o, &lp, "repeat bounds of three and four digits", &v, &bt) {
+            return o;
+        }
+    }
     // flags and case: bases N<=3 with an upper-case literal added
     let mut fcfg = gen::common_cfg();
     fcfg.leaves = vec![Lit('a'), Lit('B'), Any, Class(false, vec![('a', 'b')]), Class(true, vec![('A', 'A')]), Perl('w'), Assert(A::StartText), Assert(A::EndText), Assert(A::WordB), Lit('é'), Lit('\n')];
